@@ -291,7 +291,7 @@ void mythv_point(int id, const volatile void * addr, size_t sz) {
     extern int mythv_queue_owner(const volatile void * addr, int nworkers);
     int o = mythv_queue_owner(addr, S.nw);
     if (o >= 0 && o != tl_w) {
-      char b[200]; snprintf(b, sizeof b, "an owner-side operation (push / pop / put, hook point %d) on the run queue of worker %d is executed by worker %d: the thread uses a worker pointer it read before it moved", id, o, tl_w);
+      char b[360]; snprintf(b, sizeof b, "an owner-side operation (push / pop / put, hook point %d) on the run queue of worker %d is executed by worker %d (these operations are not synchronised against each other: only the queue's own worker may execute them; a stale worker pointer, or an owner-side function called from the thief side)", id, o, tl_w);
       finish_verdict(MV_VIOLATION, b);
     }
   }
